@@ -124,8 +124,13 @@ UnionTypes == { TUnion(<<TInt, TFloat>>), TUnion(<<TFloat, TInt>>), TUnion(<<TIn
                 TUnion(<<TUnion(<<TInt, TStr>>), TNone>>),
                 TUnion(<<TAnnot(TInt, << <<"min", 2>> >>), TAnnot(TInt, << <<"max", -2>> >>)>>) }
 
+DUnionTypes == { TDUnion(<<TObj("P1"), TObj("P2")>>, "kind", <<"P1", "P2">>),
+                 TDUnion(<<TObj("P2"), TObj("P3")>>, "kind", <<"x", "y">>),
+                 TDUnion(<<TObj("P1"), TObj("PA"), TObj("FL")>>, "type", <<"P1", "PA", "FL">>) }
+
 TypesD0 == Leaves
 TypesD1 == UNION { Ctor1(t) : t \in Leaves } \cup SetTypes \cup MapTypes \cup ObjTypes \cup UnionTypes
+           \cup DUnionTypes \cup { TColl("list", t) : t \in DUnionTypes }
 \* depth 2: constructors over a sample of depth-1 types
 D1Sample == { TColl("list", TInt), TOpt(TStr), TMap(TStr, TInt), TTuple(<<TInt, TStr>>), TObj("P2"),
               TObj("FL"), TObj("REC"), TUnion(<<TInt, TStr>>), TColl("set", TInt),
@@ -176,6 +181,13 @@ Cand(ctx, T, n) ==
            \cup {DObj(<< <<key, x>> >>) : key \in {"a", "zz", "1"}, x \in sub(T.vt)}
            \cup {DObj(<< <<"a", x>>, <<"b", y>> >>) : x \in sub(T.vt), y \in sub(T.vt)}
     [] T.k = "union"   -> UNION {Cand(ctx, T.alts[i], n) : i \in DOMAIN T.alts}
+    [] T.k = "dunion"  ->
+         LET al == Ali(ctx, T.alias)
+             tags == {DStr(T.keys[i]) : i \in DOMAIN T.keys} \cup {DStr("zz"), DInt(1)}
+             base == UNION {PickSome(Cand(ctx, T.alts[i], IF n > 0 THEN n - 1 ELSE 0), 12) : i \in DOMAIN T.alts}
+         IN SmallAtoms \cup {x \in base : x.k = "obj"}
+              \cup {DObj(x.o \o << <<al, tag>> >>) : x \in {y \in base : y.k = "obj"}, tag \in tags}
+              \cup {DObj(<< <<al, tag>> >> \o x.o) : x \in {y \in base : y.k = "obj"}, tag \in tags}
     [] T.k = "obj"     ->
          LET K  == ctx.C[T.cls]
              fs == K.fields
